@@ -1,6 +1,5 @@
-(* DataModelAgainP.v — the same version again: after an accepted version that gives every
-   existing entity at most one new field, applying the same text once more (what a restart does)
-   is accepted under every iteration order and changes nothing. *)
+(* DataModelAgainP.v — the same version again: after an accepted version, applying the same text
+   once more (what a restart does) is accepted under every iteration order and changes nothing. *)
 From DV Require Import DataModel DataModelP.
 From Coq Require Import Permutation.
 Local Open Scope N_scope.
@@ -71,41 +70,99 @@ Proof.
   exists g. apply N.eqb_eq in Hs. repeat split; congruence.
 Qed.
 
-(* the one new field of an entity stands, in the text, right after the fields the entity had *)
-Lemma new_field_short : forall e q h, wf_ent e -> wf_fields (e_fields q) ->
-  (forall f, In f (e_fields e) -> exists g, In g (e_fields q) /\ f_name g = f_name f /\ f_short g = f_short f) ->
-  new_fields e q = [h] -> f_short h = reserved + len (e_fields e).
+(* ------------------------------------------------------------------ ascending, consecutive *)
+Fixpoint asc (l : list N) : Prop :=
+  match l with [] => True | x :: r => (forall y, In y r -> x < y) /\ asc r end.
+Fixpoint consec (a : N) (l : list N) : Prop :=
+  match l with [] => True | x :: r => x = a /\ consec (a + 1) r end.
+
+Lemma ins_asc : forall A (rk : A -> N) a s, asc (map rk s) -> ~ In (rk a) (map rk s) -> asc (map rk (ins rk a s)).
 Proof.
-  intros e q h [Hen [Hes Heb]] [Hqn [Hqs Hqb]] Hmatch Hnew.
-  assert (Hh : In h (new_fields e q)) by (rewrite Hnew; left; reflexivity).
+  induction s as [|b r IH]; intros Hs Hn; cbn [ins map asc]; [split; [intros y []|exact I]|].
+  cbn [map asc] in Hs. destruct Hs as [Hb Hr].
+  destruct (rk a <=? rk b) eqn:Hle.
+  - apply N.leb_le in Hle. cbn [map asc]. split; [|split; assumption].
+    assert (Hlt : rk a < rk b). { destruct (N.eq_dec (rk a) (rk b)) as [He|He]; [exfalso; apply Hn; left; symmetry; exact He | lia]. }
+    intros y [<-|Hy]; [exact Hlt | specialize (Hb y Hy); lia].
+  - apply N.leb_gt in Hle. cbn [map asc]. split.
+    + intros y Hy. apply in_map_iff in Hy. destruct Hy as [x [<- Hx]].
+      apply (Permutation_in _ (ins_perm _ rk a r)) in Hx. destruct Hx as [<-|Hx]; [exact Hle | apply Hb; apply in_map; exact Hx].
+    + apply IH; [exact Hr | intros Hin; apply Hn; right; exact Hin].
+Qed.
+Lemma sort_by_asc : forall A (rk : A -> N) l, NoDup (map rk l) -> asc (map rk (sort_by rk l)).
+Proof.
+  induction l as [|a l IH]; intros Hnd; cbn [sort_by fold_right]; [exact I|].
+  cbn in Hnd. inversion Hnd as [|? ? Ha Hnd']. subst. apply ins_asc; [apply IH; exact Hnd'|].
+  intros Hin. apply Ha. apply in_map_iff in Hin. destruct Hin as [x [Hx Hxin]]. apply sort_by_In in Hxin.
+  rewrite <- Hx. apply in_map. exact Hxin.
+Qed.
+
+(* k ascending values inside a range of size k are the range, in order *)
+Lemma asc_consec : forall l lo, asc l -> (forall x, In x l -> lo <= x /\ x < lo + len l) -> consec lo l.
+Proof.
+  induction l as [|x r IH]; intros lo Ha Hb; cbn [consec]; [exact I|].
+  cbn [asc] in Ha. destruct Ha as [Hx Hr].
+  assert (Hlen : len (x :: r) = len r + 1) by (unfold len; cbn [length]; lia).
+  assert (Hr' : consec (lo + 1) r).
+  { apply IH; [exact Hr|]. intros y Hy. specialize (Hx y Hy). destruct (Hb x (or_introl eq_refl)) as [Hx1 _].
+    destruct (Hb y (or_intror Hy)) as [_ Hy2]. rewrite Hlen in Hy2. lia. }
+  split; [|exact Hr'].
+  destruct (Hb x (or_introl eq_refl)) as [Hx1 Hx2]. destruct r as [|y r'].
+  - rewrite Hlen in Hx2. cbn in Hx2. lia.
+  - cbn [consec] in Hr'. destruct Hr' as [Hy _]. specialize (Hx y (or_introl eq_refl)). lia.
+Qed.
+
+(* the new fields of an entity stand, in the text, right after the fields the entity had *)
+Lemma new_fields_range : forall e q, wf_ent e -> wf_fields (e_fields q) ->
+  (forall f, In f (e_fields e) -> exists g, In g (e_fields q) /\ f_name g = f_name f /\ f_short g = f_short f) ->
+  forall h, In h (new_fields e q) ->
+  reserved + len (e_fields e) <= f_short h /\ f_short h < reserved + len (e_fields e) + len (new_fields e q).
+Proof.
+  intros e q [Hen [Hes Heb]] [Hqn [Hqs Hqb]] Hmatch h Hh.
   pose proof (new_fields_fresh e q h Hh) as Hfresh.
-  unfold new_fields in Hh. apply filter_In in Hh. destruct Hh as [Hhq _].
+  assert (Hhq : In h (e_fields q)) by (unfold new_fields in Hh; apply filter_In in Hh; apply Hh).
   (* its identifier is none of the entity's *)
   assert (Hnot : ~ In (f_short h) (map f_short (e_fields e))).
   { intros Hin. apply in_map_iff in Hin. destruct Hin as [f [Hfs Hf]].
     destruct (Hmatch f Hf) as [g [Hg [Hgn Hgs]]].
     assert (g = h). { apply (NoDup_map_inj _ _ f_short (e_fields q)); [exact Hqs | exact Hg | exact Hhq | congruence]. }
     subst g. apply Hfresh. rewrite Hgn. apply in_map. exact Hf. }
-  (* the entity's identifiers fill [reserved, reserved + n) *)
-  assert (Hlow : reserved + len (e_fields e) <= f_short h).
-  { destruct (N.lt_ge_cases (f_short h) (reserved + len (e_fields e))) as [Hlt|Hge]; [|exact Hge]. exfalso. apply Hnot.
+  split.
+  - (* the entity's identifiers fill [reserved, reserved + n) *)
+    destruct (N.lt_ge_cases (f_short h) (reserved + len (e_fields e))) as [Hlt|Hge]; [|exact Hge]. exfalso. apply Hnot.
     rewrite Forall_forall in Hqb. destruct (Hqb h Hhq) as [Hh1 _].
     apply (range_filled (map f_short (e_fields e)) reserved Hes).
-    - intros x Hx. apply in_map_iff in Hx. destruct Hx as [f [<- Hf]]. rewrite len_map. rewrite Forall_forall in Heb. apply Heb. exact Hf.
-    - exact Hh1.
-    - rewrite len_map. exact Hlt. }
-  (* the text has one field more than the entity *)
-  assert (Hcount : (length (e_fields q) <= length (e_fields e) + 1)%nat).
-  { assert (Hp : (length (filter (fun f => has_field (f_name f) (e_fields e)) (e_fields q)) + length (new_fields e q) = length (e_fields q))%nat).
+    + intros x Hx. apply in_map_iff in Hx. destruct Hx as [f [<- Hf]]. rewrite len_map. rewrite Forall_forall in Heb. apply Heb. exact Hf.
+    + exact Hh1.
+    + rewrite len_map. exact Hlt.
+  - (* the text has at most as many fields as the entity's plus the new ones *)
+    assert (Hp : (length (filter (fun f => has_field (f_name f) (e_fields e)) (e_fields q)) + length (new_fields e q) = length (e_fields q))%nat).
     { unfold new_fields. apply (filter_partition_length _ (fun f => has_field (f_name f) (e_fields e))). }
-    rewrite Hnew in Hp. cbn [length] in Hp.
     assert (Hle : (length (filter (fun f => has_field (f_name f) (e_fields e)) (e_fields q)) <= length (e_fields e))%nat).
     { rewrite <- (map_length f_name (filter _ _)), <- (map_length f_name (e_fields e)).
       apply NoDup_incl_length; [apply NoDup_map_filter; exact Hqn|].
       intros x Hx. apply in_map_iff in Hx. destruct Hx as [g [<- Hg]]. apply filter_In in Hg. destruct Hg as [_ Hg].
       apply (hask_In f_name). exact Hg. }
-    lia. }
-  rewrite Forall_forall in Hqb. destruct (Hqb h Hhq) as [_ Hup]. unfold len in *. lia.
+    rewrite Forall_forall in Hqb. destruct (Hqb h Hhq) as [_ Hup]. unfold len in *. lia.
+Qed.
+
+(* fields whose parsed identifiers continue the entity's are inserted as they are *)
+Lemma insert_new_consec : forall news fs, consec (reserved + len fs) (map f_short news) ->
+  Forall readable news -> insert_new news fs = (fs ++ news, None).
+Proof.
+  induction news as [|h news IH]; intros fs Hc Hr; cbn [insert_new]; [rewrite app_nil_r; reflexivity|].
+  inversion Hr as [|? ? Hh Hr']. subst. unfold readable in Hh. rewrite Hh.
+  cbn [map consec] in Hc. destruct Hc as [Hs Hc].
+  assert (Heta : mkF (f_name h) (reserved + len fs) (f_type h) (f_default h) (f_nullable h) (f_depr h) = h).
+  { rewrite <- Hs. destruct h. reflexivity. }
+  rewrite Heta. rewrite IH; [rewrite <- app_assoc; reflexivity| |exact Hr'].
+  rewrite len_snoc. replace (reserved + (len fs + 1)) with (reserved + len fs + 1) by lia. exact Hc.
+Qed.
+Lemma insert_new_ok_readable : forall news fs, snd (insert_new news fs) = None -> Forall readable news.
+Proof.
+  induction news as [|h news IH]; intros fs H; cbn [insert_new] in H; [constructor|].
+  destruct (needs_default (f_nullable h) (f_default h) (f_type h)) eqn:Hn; [discriminate|].
+  constructor; [exact Hn | eapply IH; exact H].
 Qed.
 
 (* ------------------------------------------------------------------ entities *)
@@ -134,18 +191,12 @@ Proof.
   - intros g Hg. apply (hask_In f_name). apply in_map. exact Hg.
 Qed.
 
-Lemma insert_new_single : forall h fs, insert_new [h] fs =
-  if needs_default (f_nullable h) (f_default h) (f_type h) then (fs, Some EMissingDefault)
-  else (fs ++ [mkF (f_name h) (reserved + len fs) (f_type h) (f_default h) (f_nullable h) (f_depr h)], None).
-Proof. intros. cbn [insert_new]. destruct (needs_default (f_nullable h) (f_default h) (f_type h)); reflexivity. Qed.
-
-Lemma entity_update_again : forall o o' nsn e q,
-  wf_ent e -> wf_fields (e_fields q) -> (length (new_fields e q) <= 1)%nat ->
+Lemma entity_update_again : forall o o' nsn e q, wf_ent e -> wf_fields (e_fields q) ->
   snd (entity_update o nsn e q) = None ->
   entity_update o' nsn (fst (entity_update o nsn e q)) q = (fst (entity_update o nsn e q), None).
 Proof.
-  intros o o' nsn e q Hwe Hwq Hlen Hok.
-  pose proof Hwq as [Hqn _].
+  intros o o' nsn e q Hwe Hwq Hok.
+  pose proof Hwq as [Hqn [Hqs _]].
   unfold entity_update in Hok |- *.
   destruct (loop f_name (o_fld o nsn (e_name e)) (upd_field (e_fields q)) (e_fields e)) as [fs1 er1] eqn:Hl.
   destruct er1 as [x|]; [discriminate|].
@@ -159,31 +210,28 @@ Proof.
   assert (Hnames1 : forall g, has_field (f_name g) (e_fields e) = true -> has_field (f_name g) fs1 = true).
   { intros g Hg. apply (hask_In f_name). apply (hask_In f_name) in Hg. rewrite <- Hfs1, map_map.
     rewrite (map_ext_in _ f_name); [exact Hg|]. intros a _. apply upd_field_ext. }
-  rewrite sort_by_short in Hok |- * by exact Hlen.
-  destruct (new_fields e q) as [|h [|h2 rest]] eqn:Hnew; [| |cbn in Hlen; lia].
-  - (* no new field *)
-    cbn [insert_new] in Hok |- *. cbn [fst].
-    apply entity_update_fix; cbn [e_fields e_idx e_depr]; try reflexivity; [exact Hqn | exact Hfix1|].
-    intros g Hg. apply Hnames1. destruct (has_field (f_name g) (e_fields e)) eqn:Hh; [reflexivity|]. exfalso.
-    assert (In g (new_fields e q)) by (unfold new_fields; apply filter_In; split; [exact Hg | rewrite Hh; reflexivity]).
-    rewrite Hnew in H. destruct H.
-  - (* one new field *)
-    rewrite insert_new_single in Hok |- *.
-    destruct (needs_default (f_nullable h) (f_default h) (f_type h)); [discriminate|]. cbn [fst].
-    assert (Hhq : In h (e_fields q)).
-    { assert (Hh : In h (new_fields e q)) by (rewrite Hnew; left; reflexivity). unfold new_fields in Hh. apply filter_In in Hh. apply Hh. }
-    assert (Hshort : f_short h = reserved + len (e_fields e)).
-    { apply (new_field_short e q h Hwe Hwq); [|exact Hnew]. intros f Hf.
-      destruct (upd_field_ok_inv _ _ (Hall f Hf)) as [g [Hg [Hgs _]]]. apply (findk_some f_name) in Hg. destruct Hg as [Hgin Hgn].
-      exists g. repeat split; assumption. }
-    apply entity_update_fix; cbn [e_fields e_idx e_depr]; try reflexivity; [exact Hqn| |].
-    + intros f' Hf'. apply in_app_or in Hf'. destruct Hf' as [Hf'|[<-|[]]]; [apply Hfix1; exact Hf'|].
-      apply (upd_field_found (e_fields q) h); try reflexivity; [apply (findk_nodup f_name); assumption|].
-      rewrite Hlen1. symmetry. exact Hshort.
-    + intros g Hg. unfold has_field. rewrite existsb_app. apply orb_true_iff.
-      destruct (has_field (f_name g) (e_fields e)) eqn:Hh; [left; apply Hnames1; exact Hh|]. right.
-      assert (Hgn : In g (new_fields e q)) by (unfold new_fields; apply filter_In; split; [exact Hg | rewrite Hh; reflexivity]).
-      rewrite Hnew in Hgn. destruct Hgn as [<-|[]]. cbn. rewrite N.eqb_refl. reflexivity.
+  set (news := sort_by f_short (new_fields e q)) in *.
+  assert (Hnews_in : forall h, In h news <-> In h (new_fields e q)) by (intros h; apply sort_by_In).
+  assert (Hlenn : len news = len (new_fields e q)).
+  { unfold len. f_equal. apply Permutation_length. apply sort_by_perm. }
+  assert (Hmatch : forall f, In f (e_fields e) -> exists g, In g (e_fields q) /\ f_name g = f_name f /\ f_short g = f_short f).
+  { intros f Hf. destruct (upd_field_ok_inv _ _ (Hall f Hf)) as [g [Hg [Hgs _]]]. apply (findk_some f_name) in Hg. destruct Hg as [Hgin Hgn].
+    exists g. repeat split; assumption. }
+  assert (Hcons : consec (reserved + len fs1) (map f_short news)).
+  { apply asc_consec.
+    - apply sort_by_asc. apply NoDup_map_filter. exact Hqs.
+    - intros x Hx. apply in_map_iff in Hx. destruct Hx as [h [<- Hh]]. rewrite len_map, Hlen1, Hlenn.
+      apply (new_fields_range e q Hwe Hwq Hmatch). apply Hnews_in. exact Hh. }
+  destruct (insert_new news fs1) as [fs2 er2] eqn:Hi.
+  destruct er2 as [x|]; [discriminate|].
+  assert (Hread : Forall readable news). { apply (insert_new_ok_readable news fs1). rewrite Hi. reflexivity. }
+  rewrite (insert_new_consec news fs1 Hcons Hread) in Hi. injection Hi as Hfs2. subst fs2. cbn [fst].
+  apply entity_update_fix; cbn [e_fields e_idx e_depr]; try reflexivity; [exact Hqn| |].
+  - intros f' Hf'. apply in_app_or in Hf'. destruct Hf' as [Hf'|Hf']; [apply Hfix1; exact Hf'|].
+    apply upd_field_self; [exact Hqn|]. apply Hnews_in in Hf'. unfold new_fields in Hf'. apply filter_In in Hf'. apply Hf'.
+  - intros g Hg. unfold has_field. rewrite existsb_app. apply orb_true_iff.
+    destruct (has_field (f_name g) (e_fields e)) eqn:Hh; [left; apply Hnames1; exact Hh|]. right.
+    apply (hask_In f_name). apply in_map. apply Hnews_in. unfold new_fields. apply filter_In. split; [exact Hg | rewrite Hh; reflexivity].
 Qed.
 
 Lemma upd_ent_fix : forall o nsn qes e q, find_ent (e_name e) qes = Some q -> e_short q = e_short e ->
@@ -201,11 +249,10 @@ Proof.
 Qed.
 
 Lemma upd_ent_again : forall o o' nsn qes e, wf_ent e -> Forall wf_ent qes ->
-  (forall q, find_ent (e_name e) qes = Some q -> (length (new_fields e q) <= 1)%nat) ->
   snd (upd_ent o nsn qes e) = None ->
   upd_ent o' nsn qes (fst (upd_ent o nsn qes e)) = (fst (upd_ent o nsn qes e), None).
 Proof.
-  intros o o' nsn qes e Hwe Hwq Hlen Hok.
+  intros o o' nsn qes e Hwe Hwq Hok.
   destruct (upd_ent_ok_inv o nsn qes e Hok) as [q [Hf Hs]].
   assert (Hwq' : wf_fields (e_fields q)).
   { apply (findk_some e_name) in Hf. rewrite Forall_forall in Hwq. apply (Hwq q). apply Hf. }
@@ -214,7 +261,7 @@ Proof.
   rewrite Hb in Hok |- *. cbn [negb] in Hok |- *.
   destruct (entity_update_ext o nsn e q) as [Hname [Hshort _]].
   apply (upd_ent_fix o' nsn qes _ q); [rewrite Hname; exact Hf | rewrite Hshort; exact Hs|].
-  apply entity_update_again; [exact Hwe | exact Hwq' | apply Hlen; exact Hf | exact Hok].
+  apply entity_update_again; [exact Hwe | exact Hwq' | exact Hok].
 Qed.
 
 (* ------------------------------------------------------------------ namespaces *)
@@ -240,12 +287,10 @@ Proof.
 Qed.
 
 Lemma upd_ns_again : forall o o' sys P n, wf_ns n -> Forall wf_ns P ->
-  (forall p, find_ns (n_name n) P = Some p -> forall e, In e (n_ents n) ->
-     forall q, find_ent (e_name e) (n_ents p) = Some q -> (length (new_fields e q) <= 1)%nat) ->
   snd (upd_ns o sys P n) = None ->
   upd_ns o' sys P (fst (upd_ns o sys P n)) = (fst (upd_ns o sys P n), None).
 Proof.
-  intros o o' sys P n Hwn HwP Hsn Hok.
+  intros o o' sys P n Hwn HwP Hok.
   destruct (find_ns (n_name n) P) as [p|] eqn:Hf.
   - assert (Hp : wf_ns p). { apply (findk_some n_name) in Hf. rewrite Forall_forall in HwP. apply HwP. apply Hf. }
     destruct Hp as [Hpn [_ Hpf]]. destruct Hwn as [Hnn [_ Hnf]].
@@ -263,7 +308,6 @@ Proof.
       * rewrite <- Hes in He'. apply in_map_iff in He'. destruct He' as [e [<- He]]. unfold F. apply upd_ent_again.
         -- rewrite Forall_forall in Hnf. apply Hnf. exact He.
         -- exact Hwq.
-        -- intros q Hq. apply (Hsn p eq_refl e He q Hq).
         -- apply Hall. exact He.
       * unfold new_ents in He'. apply filter_In in He'. destruct He' as [He' _].
         apply upd_ent_self; [exact Hpn | exact He'|]. rewrite Forall_forall in Hwq. apply Hwq. exact He'.
@@ -276,12 +320,12 @@ Proof.
 Qed.
 
 (* ------------------------------------------------------------------ the model *)
-Lemma upd_fix : forall o (sys : bool) M v P, parse (if sys then 0 else 1) v = Ok P -> ns_check_fails sys P = false ->
+Lemma apply_upd_fix : forall o (sys : bool) M v P, parse (if sys then 0 else 1) v = Ok P -> ns_check_fails sys P = false ->
   (forall n, In n (m_nss M) -> upd_ns o sys P n = (n, None)) ->
   (forall p, In p P -> has_ns (n_name p) (m_nss M) = true) ->
-  upd o sys M v = (mkM (v_tag v) (m_nss M), None).
+  apply_upd o sys M v = (mkM (v_tag v) (m_nss M), None).
 Proof.
-  intros o sys M v P Hp Hc Hfix Hall. unfold upd. rewrite Hp, Hc.
+  intros o sys M v P Hp Hc Hfix Hall. unfold apply_upd. rewrite Hp, Hc.
   rewrite (loop_all_ok n_name (upd_ns o sys P) (o_ns o) (m_nss M)); [|intros a Ha; rewrite (Hfix a Ha); reflexivity].
   rewrite (map_id_in _ (fun a => fst (upd_ns o sys P a))); [|intros a Ha; rewrite (Hfix a Ha); reflexivity].
   assert (Hnew : new_nss (m_nss M) P = []).
@@ -289,17 +333,16 @@ Proof.
   rewrite Hnew, app_nil_r. reflexivity.
 Qed.
 
-Theorem upd_again_gen : forall o o' (sys : bool) M v P, wf_model (m_nss M) -> parse (if sys then 0 else 1) v = Ok P ->
-  (forall n, In n (m_nss M) -> forall p, find_ns (n_name n) P = Some p -> forall e, In e (n_ents n) ->
-     forall q, find_ent (e_name e) (n_ents p) = Some q -> (length (new_fields e q) <= 1)%nat) ->
-  snd (upd o sys M v) = None ->
-  upd o' sys (fst (upd o sys M v)) v = (fst (upd o sys M v), None).
+Lemma apply_upd_again : forall o o' (sys : bool) M v, wf_model (m_nss M) ->
+  snd (apply_upd o sys M v) = None ->
+  apply_upd o' sys (fst (apply_upd o sys M v)) v = (fst (apply_upd o sys M v), None).
 Proof.
-  intros o o' sys M v P Hwf Hparse Hsn Hok.
+  intros o o' sys M v Hwf Hok.
+  destruct (parse (if sys then 0 else 1) v) as [P|pe] eqn:Hparse; [|unfold apply_upd in Hok; rewrite Hparse in Hok; discriminate].
   destruct (parse_wf _ _ _ Hparse) as [HPn [HPi [HPw HPb]]].
   assert (HPwf : Forall wf_ns P) by (eapply Forall_impl; [|exact HPw]; intros a [Ha _]; exact Ha).
   destruct Hwf as [Hn [Hi [Hw Hr]]].
-  unfold upd in Hok |- *. rewrite Hparse in Hok |- *.
+  unfold apply_upd in Hok |- *. rewrite Hparse in Hok |- *.
   destruct (ns_check_fails sys P) eqn:Hc; [discriminate|].
   set (F := upd_ns o sys P) in *.
   destruct (loop n_name (o_ns o) F (m_nss M)) as [nss er] eqn:Hl.
@@ -307,13 +350,12 @@ Proof.
   assert (Hall : forall a, In a (m_nss M) -> snd (F a) = None).
   { apply (loop_ok_all n_name F (o_ns o)). rewrite Hl. reflexivity. }
   rewrite (loop_all_ok n_name F (o_ns o) (m_nss M) Hall) in Hl. injection Hl as Hnss.
-  pose proof (upd_fix o' sys (mkM (v_tag v) (nss ++ new_nss (m_nss M) P)) v P Hparse Hc) as Hfix.
-  unfold upd in Hfix. rewrite Hparse, Hc in Hfix. cbn [m_nss m_tag] in Hfix. apply Hfix.
+  pose proof (apply_upd_fix o' sys (mkM (v_tag v) (nss ++ new_nss (m_nss M) P)) v P Hparse Hc) as Hfix.
+  unfold apply_upd in Hfix. rewrite Hparse, Hc in Hfix. cbn [m_nss m_tag] in Hfix. apply Hfix.
   - intros n' Hn'. apply in_app_or in Hn'. destruct Hn' as [Hn'|Hn'].
     + rewrite <- Hnss in Hn'. apply in_map_iff in Hn'. destruct Hn' as [n [<- Hin]]. unfold F. apply upd_ns_again.
       * rewrite Forall_forall in Hw. apply Hw. exact Hin.
       * exact HPwf.
-      * intros p Hp e He q Hq. apply (Hsn n Hin p Hp e He q Hq).
       * apply Hall. exact Hin.
     + unfold new_nss in Hn'. apply filter_In in Hn'. destruct Hn' as [Hn' _].
       apply upd_ns_self; [exact HPn | exact Hn'|]. rewrite Forall_forall in HPwf. apply HPwf. exact Hn'.
@@ -322,4 +364,13 @@ Proof.
     + left. apply (hask_In n_name). apply (hask_In n_name) in Hh. rewrite <- Hnss, map_map.
       rewrite (map_ext_in _ n_name); [exact Hh|]. intros a _. apply upd_ns_ext.
     + right. apply (hask_In n_name). apply in_map. unfold new_nss. apply filter_In. split; [exact Hp | rewrite Hh; reflexivity].
+Qed.
+
+(* an accepted version applied again — under any iteration order — is accepted and changes nothing *)
+Theorem upd_again : forall o o' sys M v, wf_model (m_nss M) -> snd (upd o sys M v) = None ->
+  upd o' sys (fst (upd o sys M v)) v = (fst (upd o sys M v), None).
+Proof.
+  intros o o' sys M v Hwf Hok. destruct (upd_cases o sys M v) as [[Ha Hu] | [x [_ Hu]]]; [|rewrite Hu in Hok; discriminate].
+  rewrite Hu. pose proof (apply_upd_again o o' sys M v Hwf Ha) as H2.
+  unfold upd at 1. rewrite H2. reflexivity.
 Qed.
